@@ -6,14 +6,15 @@
    steps, each possibly carrying a storage / catalog fault that lands before or
    after the effect of the PUT / register_chunk it hits, and crashes — of k
    writers with the write lists `todos`, on the abstract WAL of
-   Model/IngestDur.v.
+   Model/IngestDur.v (DCrashRot: a crash that leaves a new, empty tail segment).
 
    Full statement (FALSE of the code as it is, see the three refutations):
      forall c todos ls, Durable (drun c ls (dinit todos))
    where Durable s := every row of every write that returned Ok is in a
    registered chunk or in a WAL entry newer than the persisted flushed mark
    (= is put back into the buffer by the next ensure_wal). *)
-From CS Require Import Base.Prelude Model.Ingest Model.IngestDur Proofs.IngestDurProofs.
+From CS Require Import Base.Prelude Model.Ingest Model.IngestDur Proofs.IngestDurProofs Proofs.IngestDurTie.
+From CSGen Require Import Consts Funs.
 Open Scope N_scope.
 
 (* Strongest true statement: for every schedule on which the executable
@@ -66,3 +67,30 @@ Theorem C01_park_point_runs_are_runs :
   exists ls, fold_left (fun s l => dmacro c fuel l s) ms s = drun c ls s.
 Proof. exact dmacro_run_is_run. Qed.
 Print Assumptions C01_park_point_runs_are_runs.
+
+(* The truncation bounds, the guards and the persisted value in the model's
+   flush and recovery steps are the expressions found at the call sites of
+   flush_batches / ensure_wal in src/ingester/mod.rs (re-translated into
+   generated/Funs.v on every run): `if flushed_up_to > 0`,
+   `truncate_before(flushed_up_to)`, `last_flushed_seq.store(flushed_up_to)`,
+   `persist_flushed_seq(dir, flushed_up_to)`, `read_entries_after(flushed_seq)`,
+   `if flushed_seq > 0 { truncate_before(flushed_seq + 1) }`. *)
+Theorem C01_wal_call_sites_are_the_code :
+  (forall hw f d v s k,
+     dflush_step hw f d v (QTrunc s k) =
+     if Funs.ingest_flush_mark_guard (Z.of_N s)
+     then Some (if hw then set_segs d (trunc (zN Funs.ingest_flush_truncate_bound s) (d_segs d)) else d,
+                v, GPc (QPersist s k))
+     else Some (d, v, GOk k)) /\
+  (forall hw f d v s k,
+     dflush_step hw f d v (QPersist s k) =
+     Some (set_flushed d (zN Funs.ingest_flush_persist_value s),
+           set_lfs v (zN Funs.ingest_flush_lfs_value s), GPc (QFin k))) /\
+  (forall d, replay_sbs d = filter (fun e => zN Funs.ingest_recover_read_after (d_flushed d) <? fst e) (wal_sbs d)) /\
+  (forall f d v maxs fl0,
+     drstep f d v (QRFinish maxs fl0) =
+     (if Funs.ingest_recover_truncate_guard (Z.of_N fl0)
+      then set_segs d (trunc (zN Funs.ingest_recover_truncate_bound fl0) (d_segs d)) else d,
+      if fl0 <? maxs then set_lws v maxs else v, RUp)).
+Proof. exact wal_call_sites_are_the_code. Qed.
+Print Assumptions C01_wal_call_sites_are_the_code.
